@@ -300,11 +300,13 @@ def run_e1(sc, scratch=None, value_check=True):
     # context for the recorded finding "shared pull-based component merges request streams":
     # it only applies when the merged stream really was non-monotone / carried duplicates
     prov = {}
+    prov_targets = {}
     for e in rec.events:
         # requests arriving at the outputs of pull-based components (stub or real) while running
         if e[0] == "GET" and e[4] is not None and e[1] and e[1].split(".")[0] in cidx and \
                 sc["components"][cidx[e[1].split(".")[0]]]["kind"] in ("pull", "wsum"):
             prov.setdefault(e[1].split(".")[0], []).append(e[2])
+            prov_targets.setdefault(e[1].split(".")[0], set()).add(e[3])
     shared_ctx = {}
     for pname, ts in prov.items():
         pi = cidx[pname]
@@ -313,12 +315,17 @@ def run_e1(sc, scratch=None, value_check=True):
         nonmono = any(F(b) < F(a) for a, b in zip(ts, ts[1:]))
         dup = len(set(ts)) < len(ts)
         stateful_up = bool(_up_kinds(sc, pi) & {"avg", "sum", "delay_pull"})
-        shared_ctx[pname] = "nonmono" if nonmono else ("dup-stateful" if dup and stateful_up else "clean")
+        # requests of two or more consumer links interleave in a pull-counting DelayToPull upstream
+        inter = "delay_pull" in _up_kinds(sc, pi) and len(prov_targets.get(pname, ())) >= 2
+        shared_ctx[pname] = "nonmono" if nonmono else ("dup-stateful" if dup and stateful_up else
+                                                       ("interleaved-delay-pull" if inter else "clean"))
     for x in viol:
         if x.get("comp") in cidx:
             ups = upstream_pull_comps(sc, cidx[x["comp"]])
             st = [shared_ctx.get(sc["components"][p]["name"]) for p in ups]
-            x["shared_ctx"] = "nonmono" if "nonmono" in st else ("dup-stateful" if "dup-stateful" in st else "clean")
+            x["shared_ctx"] = "nonmono" if "nonmono" in st else (
+                "dup-stateful" if "dup-stateful" in st else (
+                    "interleaved-delay-pull" if "interleaved-delay-pull" in st else "clean"))
 
     log = [e for e in rec.events if e[0] in ("UPDATE_ENTER", "PUSH", "GET", "PROVIDER", "LIFECYCLE", "UPDATE_RAISE")]
     infos = {}
